@@ -37,7 +37,10 @@ FAMILIES: dict[str, dict] = {
     "predicate": {"grammars": ['a = { &"x" ~ ANY ~ !"y" ~ ANY? }', 'b = { "x" }\na = { !(b ~ "y") ~ b }', 'b = { "x" }\na = { &(b ~ "y") ~ b ~ ANY }', 'a = { (!"y" ~ ANY)* ~ "y" }'], "alphabet": "xy", "n": 4},
     "rule": {"grammars": [WSP + 'b = _{ "x" ~ "y" }\na = { b ~ "x" }', WSP + 'b = ${ "x" ~ "y" }\na = { b ~ "x" }', WSP + 'b = @{ "x" ~ "y" }\na = { b ~ "x" }', WSP + 'c = !{ "x" ~ "y" }\nb = @{ c ~ "x" }\na = { b ~ "y" }', WSP + 'c = { "y" }\nb = ${ "x" ~ c }\na = { b ~ "x" }', WSV + 'a = ${ "x" ~ "y" }'], "alphabet": "xy ", "n": 5},
     "trivia": {"grammars": [WSP + CMT + 'a = { "x" ~ "y" }', 'WHITESPACE = _{ "-" ~ ">" }\na = { "x" ~ "-" ~ "y" }', 'COMMENT = { "#" }\na = { "x" ~ "y" }', WSV + 'COMMENT = { "#" }\na = { "x"* ~ "y" }', WSP + 'COMMENT = _{ "#" ~ (!"!" ~ ANY)* ~ "!" }\na = { "x" ~ "#" ~ "y" }'], "alphabet": "xy #!->", "n": 4},
-    "push": {"grammars": ['a = { PUSH("x" | "y") ~ POP }', 'a = { PUSH("x") ~ PUSH("y") ~ PEEK_ALL }', 'a = { PUSH("x") ~ PUSH("y") ~ POP_ALL ~ DROP? }', 'a = { PUSH("x") ~ PUSH("y") ~ PEEK[0..1] ~ PEEK[..] ~ PEEK[-1..] }', 'a = { PUSH_LITERAL("y") ~ PEEK ~ DROP ~ "x"? ~ DROP? }', 'a = { PEEK | "x" }', 'a = { POP | "x" }', 'a = { POP_ALL ~ "x" }', 'a = { PEEK[..] ~ "x" }', 'a = { PEEK_ALL ~ "x" }', 'a = { PUSH("x"*) ~ "y" ~ PEEK ~ "y" }', 'a = { PUSH("") ~ POP ~ "x" }', 'a = { PUSH("x"?) ~ !PEEK ~ "y" | "x" ~ "y" }', 'a = { PUSH("x"*) ~ "y" ~ PEEK_ALL ~ PEEK[..] ~ POP_ALL }'], "alphabet": "xy", "n": 5},
+    "push": {"grammars": ['a = { PUSH("x" | "y") ~ POP }', 'a = { PUSH("x") ~ PUSH("y") ~ PEEK_ALL }', 'a = { PUSH("x") ~ PUSH("y") ~ POP_ALL ~ DROP? }', 'a = { PUSH("x") ~ PUSH("y") ~ PEEK[0..1] ~ PEEK[..] ~ PEEK[-1..] }', 'a = { PUSH_LITERAL("y") ~ PEEK ~ DROP ~ "x"? ~ DROP? }', 'a = { PEEK | "x" }', 'a = { POP | "x" }', 'a = { POP_ALL ~ "x" }', 'a = { PEEK[..] ~ "x" }', 'a = { PEEK_ALL ~ "x" }', 'a = { PUSH("x"*) ~ "y" ~ PEEK ~ "y" }', 'a = { PUSH("") ~ POP ~ "x" }', 'a = { PUSH("x"?) ~ !PEEK ~ "y" | "x" ~ "y" }', 'a = { PUSH("x"*) ~ "y" ~ PEEK_ALL ~ PEEK[..] ~ POP_ALL }',
+                       # slice bounds beyond the stack, in both directions (round-5 seed C07c: an un-clamped negative bound)
+                       'a = { PUSH("x")? ~ PEEK[-2..] ~ "y" }', 'a = { PUSH("x")? ~ PEEK[..-2] ~ "y" }', 'a = { PEEK[-3..-1] ~ "x" }', 'a = { PUSH("x") ~ PEEK[5..] ~ PEEK[1..0] ~ PEEK[-5..5] ~ "y" }',
+                       'a = { PUSH("x") ~ PUSH("y") ~ PEEK[-3..1] ~ PEEK[1..-3] ~ "y" }'], "alphabet": "xy", "n": 5},
     "stack_backtrack": {"grammars": ['a = { PUSH("x") ~ ((POP)? ~ "z" | PEEK) }', 'a = { PUSH("x") ~ PUSH("y") ~ (POP ~ POP ~ "z" | PEEK) }', 'a = { PUSH("x") ~ (POP_ALL ~ "z" | PEEK ~ "y") }', 'a = { PUSH("x") ~ !(POP ~ "z") ~ &(DROP) ~ PEEK }', 'a = { PUSH("x") ~ (PUSH("y") ~ "z")* ~ PEEK_ALL }', 'a = { PUSH("x") ~ (DROP ~ "z")? ~ (PUSH("y") ~ "z" | PEEK_ALL) }'], "alphabet": "xyz", "n": 5},
     "optimizer_skip": {"grammars": ['s = @{ (!"a" ~ ANY)* }\na = @{ (!s ~ ANY)* ~ "x" }', 'r = @{ (!("b" | "ab") ~ ANY)* }\na = { r ~ ANY* }', 'nl = _{ "\\n" | "\\r\\n" }\nr = @{ (!nl ~ ANY)* }\na = { r ~ nl? ~ r }', 'WHITESPACE = _{ " " }\na = { (!"b" ~ ANY)* ~ "b"? }', 'a = { (!("x" ~ "y") ~ ANY)* ~ ANY* }', 'WHITESPACE = _{ " " }\nr = @{ (!"b" ~ ANY)* }\na = { r ~ "b" }'], "alphabet": "ab \n\rxy", "n": 4},
     "optimizer_squash": {"grammars": ['a = { ("x" | ^"xy") ~ "z" }', "a = { ('x'..'y' | ^\"xy\" | \"z\") ~ \"z\" }", 'y = { "y" }\nb = _{ "x" | y }\na = { (b | "z")+ }', 'a = { ("x" | "xy") ~ "y"? ~ "z" }', 'a = { (^"xy" | "xyz") ~ "z"? }', 'a = { ("xy" | "x" | \'y\'..\'z\') ~ "z" }', 'b = _{ "x" | "xy" }\na = { b ~ "y" }', 'a = { (ASCII_DIGIT | "x" | "xy")+ }'], "alphabet": "xyzXY1", "n": 4},
